@@ -211,6 +211,36 @@ def reach_outside_staging(F, root):
     return seen
 
 
+def handle_positions_moved(ctx, F, rule, only=None):
+    """the handle's own cached positions into the data region (u64 fields *_end / *offset of Memvid) move with the data in both
+    growth paths: stored as themselves plus something (delta)"""
+    mem = F.adt('Memvid')
+    mem_pos = sorted(f['name'] for v in (mem['variants'] if mem else []) for f in v['fields'] if f['ty'] == 'u64' and (f['name'].endswith('_end') or f['name'].endswith('offset')))
+    ctx.floor(rule + ':handle', len(mem_pos), 2, 'file-position fields of the handle (data_end, cached_payload_end)')
+    for key in ('Memvid::grow_wal_region', 'Memvid::ensure_wal_capacity'):
+        g = ctx.need(rule, key)
+        if g is None:
+            continue
+        g = growth_host(F, g)
+        ctx.touch(g, len(g.blocks))
+        for fld in mem_pos:
+            if only is not None and fld not in only:
+                continue
+            moved = False
+            for st in lib.field_stores(g, 'Memvid', fld):
+                if st['lhs'].field_owners()[-1] != ('Memvid', fld):
+                    continue
+                sl = lib.slice_back(g, lib.rv_operands(st['rv']), through_calls=True, at=(st['bb'], st['idx']))
+                if sl.has_field('Memvid', fld) and ({'Add', 'AddWithOverflow'} & sl.ops or any(c.name in ('saturating_add', 'checked_add', 'wrapping_add') for c in sl.calls)):
+                    moved = True
+            ctx.evaluations += 1
+            if moved:
+                ctx.ok(rule, g, 'Memvid.%s is moved by delta' % fld)
+            else:
+                ctx.bad(rule, g, 'Memvid.%s is a position in the data region cached on the handle, but this growth path does not move it by delta: the next commit that inserts nothing '
+                        'rebuilds the indexes (and places later payloads) at the stale position, and the capacity guard reads a usage that is too low' % fld, sink='Memvid.' + fld, detail='handle-position-not-shifted:' + fld)
+
+
 def run(ctx):
     ctx.rule('WMC-C02a', 'commit_from_records is called only from a closure passed to with_staging_lock')
     ctx.rule('MPT-C02b', 'with_staging_lock: rename only after op Ok + sync; Err arm discards the staging file and restores the saved state')
@@ -309,31 +339,11 @@ def run(ctx):
             else:
                 ctx.bad('COVER-C02d', adj, '%s.%s is a file offset stored in the TOC but adjust_offsets_after_wal_growth does not move it: after a WAL growth the rewritten TOC '
                         'points %s bytes before the data, and an open before the next commit reads the wrong bytes' % (owner, fld, 'delta'), sink='%s.%s' % (owner, fld), detail='offset-not-shifted:%s.%s' % (owner, fld))
-        mem = F.adt('Memvid')
-        mem_pos = sorted(f['name'] for v in (mem['variants'] if mem else []) for f in v['fields'] if f['ty'] == 'u64' and (f['name'].endswith('_end') or f['name'].endswith('offset')))
-        ctx.floor('COVER-C02d:handle', len(mem_pos), 2, 'file-position fields of the handle (data_end, cached_payload_end)')
+        handle_positions_moved(ctx, F, 'COVER-C02d')
         for key in ('Memvid::grow_wal_region', 'Memvid::ensure_wal_capacity'):
             g = ctx.need('COVER-C02d', key)
-            if g is None:
-                continue
-            g = growth_host(F, g)
-            ctx.touch(g, len(g.blocks))
-            # the handle's own cached positions into the data region move with the data
-            for fld in mem_pos:
-                moved = False
-                for st in lib.field_stores(g, 'Memvid', fld):
-                    if st['lhs'].field_owners()[-1] != ('Memvid', fld):
-                        continue
-                    sl = lib.slice_back(g, lib.rv_operands(st['rv']), through_calls=True, at=(st['bb'], st['idx']))
-                    if sl.has_field('Memvid', fld) and ({'Add', 'AddWithOverflow'} & sl.ops or any(c.name in ('saturating_add', 'checked_add', 'wrapping_add') for c in sl.calls)):
-                        moved = True
-                ctx.evaluations += 1
-                if moved:
-                    ctx.ok('COVER-C02d', g, 'Memvid.%s is moved by delta' % fld)
-                else:
-                    ctx.bad('COVER-C02d', g, 'Memvid.%s is a position in the data region cached on the handle, but this growth path does not move it: the next commit that inserts nothing '
-                            'rebuilds the indexes (and places later payloads) at the stale position, inside the enlarged WAL region' % fld, sink='Memvid.' + fld, detail='handle-position-not-shifted:' + fld)
-            growth_protocol(ctx, F, g, 'COVER-C02d')
+            if g is not None:
+                growth_protocol(ctx, F, g, 'COVER-C02d')
     # ---- c
     n = 0
     entries = {e.key: e for e in lib.api_roots(F)}
